@@ -69,6 +69,9 @@ structure Block where
   flawed : Bool              -- some other header field `validateBlock` compares is wrong (AppHash)
   nextVals : Option (List Val)  -- the validator set `EndBlock` of this block's execution produces
                                 -- (`none` = no validator updates); a function of the block's txs
+  malformed : Bool := false  -- fails `BlockFromProto` / `Block.ValidateBasic` in some other way (header
+                             -- hashes not matching data / last commit / evidence, nil or ill-formed
+                             -- LastCommit entries)
 deriving DecidableEq, Repr
 
 /-- `Commit.VoteSignBytes(chainID, idx)` -/
@@ -404,7 +407,7 @@ def showAdd : AddRes → String
 of `decrPending` is recovered by the connection, which stops the peer for error -/
 def Node.recvBlock (n : Node) (id : Nat) (b : Block) : Node × String :=
   if id ∉ n.connected then (n, "not-connected")
-  else if !b.lastCommit.basicOK then (n.stopPeer id, "stopped")
+  else if !b.lastCommit.basicOK || b.malformed then (n.stopPeer id, "stopped")
   else
     let (p, r) := n.pool.addBlock id b
     let n' := { n with pool := p }
